@@ -13,8 +13,8 @@ import time
 from . import common as C
 from .wrapcheck import run_cases
 
-NAMES = [["user", "id"], ["http", "port"], ["peer", "ids"], ["json", "file"], ["max", "size"], ["api", "url"], ["timeout"], ["level"], ["mode"], ["tags"]]
-TAGW = [["uid"], ["listen", "port"], ["file", "path"], ["nick"], ["limit"], ["endpoint"], ["wait"], ["lvl"], ["mod"], ["labels"]]
+NAMES = [["pfx", "id"], ["http", "port"], ["peer", "ids"], ["json", "file"], ["max", "size"], ["api", "url"], ["timeout"], ["level"], ["mode"], ["tags"]]
+TAGW = [["pfxuid"], ["listen", "port"], ["file", "path"], ["nick"], ["limit"], ["endpoint"], ["wait"], ["lvl"], ["mod"], ["labels"]]
 ALIASW = [["old", "id"], ["old", "port"], ["old", "file"], ["old", "name"], ["old", "size"], ["old", "url"], ["old", "wait"], ["old", "lvl"], ["old", "mode"], ["old", "tags"]]
 ALL_KINDS = ["int", "int8", "uint16", "str", "bool", "f64", "dur", "strs", "ints", "smap", "set", "time", "named", "durs", "structs", "f32", "c64",
              "nstrs", "nmap", "lnamed", "mnamed", "knamed", "pint", "pstrs", "pmap"]
